@@ -351,6 +351,25 @@ pub fn run(args: &Args) -> i32 {
         check_pwb(&b, loc, true);
     });
     if thorough {
+        // every subset of a 16-channel window of the sent mask (all 65536 subsets) at three window positions, odd and
+        // even sample counts: data laid out by the reference encoder
+        rep.run("sent-mask-window-subsets", 65536 * 3 * 2, 60, true, "sent mask = any subset (all 65536) of the readouts in a 16-wide window at {1..16, 33..48, 64..79} x requested_samples {3, 4}", |idx, loc| {
+            let d = unrank(idx, &[65536, 3, 2]);
+            let lo = [1u16, 33, 64][d[1] as usize];
+            let ros: Vec<u16> = (0..16u16).filter(|k| d[0] >> k & 1 == 1).map(|k| lo + k).collect();
+            let p = mk_pwb(17 + d[1] as usize, (d[0] % 4) as u8, 3 + d[2] as u16, &ros, 0, d[0] % 4);
+            check_pwb(&ref_pwb_encode(&p), loc, true);
+        });
+        // every pair of header bytes at every pair of values (two simultaneous deviations, complete over the header)
+        let hp: Vec<(usize, usize)> = (0..52).flat_map(|i| (i + 1..52).map(move |j| (i, j))).collect();
+        rep.run("header-byte-pairs-all-values", hp.len() as u64 * 65536, 60, true, "base packet with 3 channels: every unordered pair of the 52 header bytes (1326) x all 65536 value pairs", |idx, loc| {
+            let (i, j) = hp[(idx / 65536) as usize];
+            let v = idx % 65536;
+            let mut b = base2.clone();
+            b[i] = (v & 0xFF) as u8;
+            b[j] = (v >> 8) as u8;
+            check_pwb(&b, loc, true);
+        });
         let alpha = [0u8, 1, 2, 3, 0x41, 0x44, 0x45, 0x7F, 0x80, 0xCC, 0xFE, 0xFF];
         for (bi, base) in [("4 channels, even sample count", base_even.clone()), ("3 channels, odd sample count", base2.clone()), ("no channels", base0.clone())].into_iter().enumerate() {
             let n = base.1.len() as u64;
